@@ -120,6 +120,10 @@ def handleC11 : List String → Option String
   | "c11.run" :: ops => do
     let ops ← ops.mapM parseOp11
     some (" ".intercalate ("ok" :: trace11 init ops))
+  | "c11.last" :: ops => do
+    -- long histories: only the result and state of the last operation
+    let ops ← ops.mapM parseOp11
+    some ("ok " ++ ((trace11 init ops).getLast?.getD "-"))
   | "c11.cow" :: ops => do
     -- a trailing `#i,j,…` selects the positions to print (states inside one implementation call are not observable)
     let (ops, sel) := match ops.getLast? with
